@@ -9,7 +9,10 @@ open IblVerif IblVerif.Proto IblVerif.Sync
     fronts2|rises2|falls2 <i|f> <axis> <r> <c> <step> <analog> <flat x, C order>
     readsync <nidq|imec|nometa> <a> <b> <c> <d> <ntr> <thr f32 bits> <floor 0|1> <gains f64 bits> <pct f32 bits|E> <n> <flat rows>
     readsyncdigital <nidq|imec|nometa> <a> <b> <c> <d> <ntr> <n> <flat rows>
-    ttl <n> <16 trains as 0/1 strings, line 0 first> -/
+    ttl <n> <16 trains as 0/1 strings, line 0 first>
+    splitflat <x>                           splitSyncFlat (the array pipeline with its reshape) on the samples x
+    ttlwin <n> <window lengths> <16 trains> the same recording as `ttl`, read window by window (`chunked`): every window
+                                            but the first re-reads one sample; fronts / rises / falls per window, moved -/
 
 def bitsStr (l : List Nat) : String := String.join (l.map toString)
 
@@ -74,8 +77,20 @@ def convF (gains : List Float) (c : Int) (x : Int) : Float32 :=
 
 def toI8F (v : Float32) : Int := v.toInt8.toInt
 
+/-- consecutive windows of the given lengths -/
+def splitWindows {α : Type} : List Nat → List α → List (List α)
+  | [], _ => []
+  | n :: ns, l => l.take n :: splitWindows ns (l.drop n)
+
 def step (t : List String) : String :=
   match t with
+  | ["splitflat", x] =>
+    match intList? x with
+    | some xs =>
+      match splitSyncFlat xs with
+      | some m => s!"ok n={m.length} " ++ (if m.isEmpty then "-" else ",".intercalate (m.map bitsStr))
+      | none => "err ValueError"
+    | none => "bad-op"
   | ["split", lo, hi] =>
     match int? lo, int? hi with
     | some lo, some hi =>
@@ -122,6 +137,21 @@ def step (t : List String) : String :=
       | .ok m => showRows (m.map fun r => r.map Int.ofNat)
       | .error e => showErr e
     | _, _, _, _ => "bad-op"
+  | "ttlwin" :: n :: lens :: trains =>
+    match nat? n, intList? lens with
+    | some n, some lens =>
+      let tr : Nat → Nat → Bool := fun k t => ((trains.getD k "").toList.getD t '0') = '1'
+      let rows : List (List Int) := (List.range n).map fun t => [0, int16OfWord (encodeWord fun k => tr k t)]
+      let ws := splitWindows (lens.map Int.toNat) rows
+      let rd : List (List Int) → List (List Int) := fun w =>
+        match readSync (α := Int) (fun _ x => x) (fun _ => some []) (fun v => v) 2 (.imec 1 0 1) w 1 true with
+        | .ok m => m
+        | .error _ => []
+      "ok fronts=" ++ showIJS (toString : Int → String)
+          (chunked (fun w => fronts2 0 (rd w) (1 : Int)) (fun k q => ((q.1.1 + k, q.1.2), q.2)) 0 none ws) ++
+        " rises=" ++ showIJ (chunked (fun w => rises2 0 (rd w) (1 : Int) false) (fun k q => (q.1 + k, q.2)) 0 none ws) ++
+        " falls=" ++ showIJ (chunked (fun w => falls2 0 (rd w) (-1 : Int) false) (fun k q => (q.1 + k, q.2)) 0 none ws)
+    | _, _ => "bad-op"
   | "ttl" :: n :: trains =>
     match nat? n with
     | some n =>
